@@ -47,7 +47,12 @@ class Runner:
         for k, (anchor, clauses) in enumerate(ex.c.cuts):
             if text is None:
                 text = ast.unparse(s)
-            if not text.startswith(anchor):
+            if anchor.startswith('re:'):
+                # a regular expression on the first line of the statement: an anchor that survives an edit of the rest of the line
+                import re as _re
+                if not _re.search(anchor[3:], text.split('\n', 1)[0]):
+                    continue
+            elif not text.startswith(anchor):
                 continue
             ex.cuts_seen = getattr(ex, 'cuts_seen', set()) | {k}
             for st in states:
